@@ -17,7 +17,7 @@ RULE = (
     "three case families. (eq) a grammar-generated describing function built as DAG and as AsyncDAG from the same "
     "IR, same arguments: values, node-observation multisets and the setup entries recorded in .results must be equal "
     "and equal to the reference. (gather) k in 2..6 concurrent awaits (asyncio.gather) of ONE AsyncDAG with distinct "
-    "argument tuples after its setup nodes have run: each await returns the reference value for its own arguments and "
+    "argument tuples, with its setup nodes run beforehand or (half of the cases) not: each await returns the reference value for its own arguments and "
     "the pooled observation multiset is the sum of the k reference multisets. (live) AsyncDAGs whose pooled nodes are "
     "all async-thread: (i) a node blocks until a sibling coroutine of the same loop sets an event, (ii) the first node "
     "of each of k gathered executions waits on a k-party barrier - both can only complete if the loop keeps serving "
@@ -88,7 +88,8 @@ def _gather(case: Dict[str, Any], res: CaseResult) -> None:
     setup_obs: List[Any] = []
 
     async def main() -> Any:
-        await b.dag.setup()
+        if case.get("setup_first", True):
+            await b.dag.setup()
         setup_obs.extend(prog.observations(ex))
         return await asyncio.gather(*[b.dag(*[dec(x) for x in a]) for a in case["argsets"]], return_exceptions=True)
 
@@ -102,15 +103,26 @@ def _gather(case: Dict[str, Any], res: CaseResult) -> None:
     got = pc.obs_counter(prog.observations(ex))
     want = pc.obs_counter(setup_obs)
     setup_keys = set(want)
-    for _v, R in refs:
-        for o in R.obs:
-            if repr(o) not in setup_keys:
-                want[repr(o)] += 1
+    if not case.get("setup_first", True):
+        # setup nodes may be computed by several of the concurrent awaits: their entries are not compared
+        M_setup = {s["site"] for s, spec in prog.all_calls(P) if spec.get("setup")}
+        got = pc.obs_counter([o for o in prog.observations(ex) if o[1] not in M_setup])
+        for _v, R in refs:
+            for o in R.obs:
+                if o[1] not in M_setup:
+                    want[repr(o)] += 1
+    else:
+        for _v, R in refs:
+            for o in R.obs:
+                if repr(o) not in setup_keys:
+                    want[repr(o)] += 1
     if got != want and not res.violations:
         res.viol("gather-observations", f"nodes saw {sorted((got - want).items())[:4]} instead of {sorted((want - got).items())[:4]}")
     res.evals = len(case["argsets"])
     res.nontrivial = len({repr(a) for a in case["argsets"]}) >= 2
     res.cls("gather", f"gather-k{len(case['argsets'])}")
+    if not case.get("setup_first", True):
+        res.cls("gather-without-prior-setup")
 
 
 def _live_prog(kind: str, k: int) -> Dict[str, Any]:
@@ -216,6 +228,8 @@ def cases(draw: Any, tier: str) -> Dict[str, Any]:
                     a.append(prog.enc(draw(st.sampled_from(richgen.ANY_POOL))))
             argsets.append(a)
     c.update(family=fam, argsets=argsets, config=cfg)
+    if fam == "gather":
+        c["setup_first"] = draw(st.booleans())
     return c
 
 
